@@ -394,6 +394,19 @@ class Executor:
             setattr(b.naming, attr, bool(op[3]))
         elif kind == "assign":
             b.dynamics.assign(self.ri.resonances[op[2] % len(self.ri.resonances)], DYN[op[3]])
+        elif kind == "assigndecay":
+            # the two by-node overloads of DynamicsSelector.assign: TwoBodyDecay and (transition, node_id)
+            from ampform.helicity.decay import TwoBodyDecay  # noqa: PLC0415
+
+            decay = list(b.dynamics)[op[2]]
+            target = decay
+            if len(op) > 4 and op[4] == "tuple":
+                for t in b.reaction.transitions:
+                    hit = [n for n in t.topology.nodes if TwoBodyDecay.from_transition(t, n) == decay]
+                    if hit:
+                        target = (t, hit[0])
+                        break
+            b.dynamics.assign(target, DYN[op[3]])
         elif kind == "regtopo":
             b.adapter.register_topology(self.ri.universe[v][op[2]])
         elif kind == "permutate":
@@ -420,7 +433,7 @@ def build_canonical(cfg: dict):
     if ri.canonical:
         ops.append(["naming", 0, "ls", cfg["ls"]])
     for sel, bld in cfg["dyn"]:
-        ops.append(["assign", 0, sel, bld])
+        ops.append(["assigndecay", 0, sel, bld, "decay"])
     for t in cfg["topos"]:
         if t not in ri.base[v]:
             ops.append(["regtopo", 0, t])
@@ -499,6 +512,7 @@ def probe_histories() -> list:
             ["new", 0], ["assign", 1, 0, 10], ["assign", 1, 1, 7], ["formulate", 1, []],
             ["assign", 0, 0, 6], ["assign", 0, 1, 4], ["formulate", 0, []], ["assign", 1, 1, 9], ["assign", 1, 0, 11],
             ["formulate", 1, []], ["assign", 0, 1, 2], ["assign", 0, 0, 3], ["formulate", 0, []],
+            ["assigndecay", 0, 1, 1, "decay"], ["assigndecay", 0, 2, 5, "tuple"], ["formulate", 0, []],
         ]})
     return hs
 
@@ -621,6 +635,10 @@ def main():
             out[name] = {"canonical": ri.canonical, "n_res": len(ri.resonances), "base": ri.base,
                          "perms": ri.perms, "n_topos": [len(u) for u in ri.universe],
                          "n_final": len(ri.variants[0].final_state), "n_dyn": len(DYN),
+                         "decays_of": [[[i for i, d in enumerate(ampform.get_builder(r).dynamics)
+                                         if d.parent.particle.name == nm] for nm in ri.resonances]
+                                       for r in ri.variants],
+                         "n_decays": [len(ampform.get_builder(r).dynamics) for r in ri.variants],
                          "universe": [[{"nodes": sorted(t.nodes),
                                         "edges": {str(i): [e.originating_node_id, e.ending_node_id]
                                                   for i, e in t.edges.items()}} for t in u]
